@@ -12,7 +12,7 @@ PROPERTY = "C04"
 RULE = ("rows:<class>: for every fitted registry class with row-wise semantics Hypothesis draws a configuration, a training set, a query "
         "batch that contains training rows, duplicated rows, new rows and far-away rows (rows in discretizer cells / leaves / clusters "
         "unseen at training time), and index sets: a permutation, a sub-batch and single rows. Oracle (metamorphic): for every public "
-        "method, f(batch)[idx] == f(batch[idx]); f(batch) twice agree exactly; pickle.loads(pickle.dumps(model)) answers exactly the same; "
+        "method, f(batch)[idx] == f(batch[idx]); f(batch) twice agree exactly and the array returned first keeps its values while the other batches go through the model; pickle.loads(pickle.dumps(model)) answers exactly the same; "
         "clone_with_fitted_parameters(model) either refuses in its documented way (RuntimeError for callable attributes) or answers exactly "
         "the same and leaves the original untouched. ConstraintKMeans(balanced_predictions=True) is the documented exception and is "
         "excluded. Non-trivial: a non-identity permutation or a sub-batch dropping rows, with >= 2 distinct output rows. Distinct by case JSON.")
@@ -125,6 +125,7 @@ def check_rows(case):
         else:
             Qm = Q
         mm = R.nrows(Qm)
+        kept = np.array(full, copy=True)        # the caller still holds `full` while other batches go through the same model
         again = entry.call(est, meth, Q)
         d = _same(full, again, True)
         require(d is None, "repeat:differs", "%s called twice on the same batch: %s" % (meth, d), f2)
@@ -135,6 +136,8 @@ def check_rows(case):
             part = entry.call(est, meth, R.subset(Qm, idx))
             d = _same(np.asarray(full)[idx], part, False)
             require(d is None, "rows:%s:%s" % (kind, meth), "%s(batch)[idx] != %s(batch[idx]) for idx=%r: %s" % (meth, meth, idx[:8], d), dict(f2, index_kind=kind))
+        d = _same(full, kept, True)
+        require(d is None, "repeat:earlier-result-overwritten", "the array %s returned for the batch changed while other batches were sent through the same model: %s" % (meth, d), f2)
         if len(np.unique(np.asarray(full).reshape(len(full), -1).astype(str), axis=0)) >= 2 and (perm != list(range(m)) or len(sub) < m):
             nontrivial = True
         # persistence
